@@ -108,8 +108,13 @@ def run_component(prop, tier, replay, C):
             return part, recs, d
 
         nscript = nsteps = drift = 0
-        for fu in [ex.submit(one, i, p) for i, p in enumerate(shards)]:
-            part, recs, d = fu.result()
+        results = [fu.result() for fu in [ex.submit(one, i, p) for i, p in enumerate(shards)]]
+        # second wave: truly parallel storms get the machine almost to themselves (few processes, after the first wave)
+        wave2 = [] if replay else C.get("scenarios_wave2", lambda q, sd: [])(quick, seed)
+        if wave2:
+            n2 = C.get("wave2_shards", 4)
+            results += [fu.result() for fu in [ex.submit(one, 1000 + i, wave2[i::n2]) for i in range(n2)]]
+        for part, recs, d in results:
             cov["traces_validated_against_impl"] += d["n"]
             for sc, r in zip(part, recs):
                 if sc.get("policy") == "script":
@@ -244,13 +249,22 @@ C17 = {
     "mc_instances": lambda quick: ([("a2n2s2", _ring_cfg(2, 2, 2)), ("a2n3s4", _ring_cfg(2, 3, 4))] if quick else
                                    [("a3n2s2", _ring_cfg(3, 2, 2)), ("a2n3s4", _ring_cfg(2, 3, 4)), ("a2n4s2", _ring_cfg(2, 4, 2))]),
     "sim_instances": lambda quick: [
-        ("s16a", _ring_cfg(2, 12, 16), 30 if quick else 300, {"level": "ring", "adders": 2, "nadd": 12, "maxlen": 1}, _ring_name, _ring_hook),
-        ("s16b", _ring_cfg(3, 8, 16), 30 if quick else 300, {"level": "ring", "adders": 3, "nadd": 8, "maxlen": 1}, _ring_name, _ring_hook)],
+        ("s16a", _ring_cfg(2, 12, 16), 30 if quick else 300, {"level": "ring", "adders": 2, "nadd": 12, "maxlen": 1, "compact": 0}, _ring_name, _ring_hook),
+        ("s16b", _ring_cfg(3, 8, 16), 30 if quick else 300, {"level": "ring", "adders": 3, "nadd": 8, "maxlen": 1, "compact": 0}, _ring_name, _ring_hook)],
     "scenarios": lambda quick, seed: (
         [{"level": "ring", "adders": 1 + j % 4, "nadd": 6 + 5 * (j % 5), "maxlen": 1, "policy": "pct" if j % 2 else "random",
-          "seed": seed * 100000 + j, "script": []} for j in range(40 if quick else 800)] +
+          "seed": seed * 100000 + j, "script": [], "compact": 0} for j in range(40 if quick else 800)] +
         [{"level": "striped", "adders": 2 + j % 5, "nadd": 10 + 7 * (j % 4), "maxlen": [1, 2, 4, 8][j % 4], "policy": ["pct", "random", "free", "free"][j % 4],
-          "seed": seed * 100000 + 50000 + j, "script": []} for j in range(60 if quick else 1200)]),
+          "seed": seed * 100000 + 50000 + j, "script": [], "compact": 0} for j in range(60 if quick else 1200)] +
+        # stripe storms: truly parallel recorders on a fresh buffer (no yield hook: it would serialise them), so that
+        # several of them meet at the creation of one stripe right after an expansion
+        []),
+    # stripe storms: truly parallel recorders on a fresh buffer (no yield hook: it would serialise them), so that
+    # several of them meet at the creation of one stripe right after an expansion
+    "scenarios_wave2": lambda quick, seed: [
+        {"level": "striped", "adders": 32, "nadd": 64, "maxlen": [64, 16, 64, 8][j % 4], "policy": "raw", "compact": 1,
+         "seed": seed * 100000 + 70000 + j, "script": []} for j in range(16000 if quick else 160000)],
+    "wave2_shards": 4,
     "explanation": "states/transitions: TLC totals for Ring.tla instances (NoDup, OnlyRecorded, Bounded, Complete); "
                    "traces_validated_against_impl: histories of the real ring / striped buffer judged by RingHist.tla",
     "assumptions": ["the model ring has 2-4 slots for exhaustive checking and 16 (as the code) for schedule generation",
